@@ -492,6 +492,9 @@ def run(ctx):
         if f.qual.split(".")[0] in keep:
             ctx.add_finding(f.rule.replace("R04", "R08").replace("R03", "R08"), f.file, f.qual, f.construct, f.why, f.line)
     ctx.functions |= {f for f in tmp.functions if f.split(".")[0] in keep}
+    from . import c14
+    c14.import_iso(ctx, ["SOO", "SOO_node", "StoSOO", "StoSOO_node", "DOO", "DOO_node"], "R08-ONCE",
+                   "evaluation flags, rewards and means are per cell (and per run)")
     return dict(
         explanation=(
             "ONCE: SOO and DOO hand a cell out only under the guards 'leaf' and 'never evaluated' and mark it evaluated in the same step; "
